@@ -278,7 +278,6 @@ inductive GetValue where
   | absent                 -- `(nil, false, nil)`
   | error
   | unmodelled
-  | panic                  -- `pointerstructure.Get` panicked (mapstructure, uncomparable array below a pointer key type)
   deriving Repr, Inhabited
 
 /-- the local-variable rewriting loop of `getValue` (scans from the newest binding down) -/
@@ -310,7 +309,9 @@ def getValue (o : Opts) (datum : Any) (path : List GoString) : GetValue :=
     match get o.cfg path datum with
     | .ok v => .present v
     | .error .unmodelled => .unmodelled
-    | .error .panic => .panic
+    -- `safeGet`: a panic raised inside the walk (mapstructure comparing arrays of an uncomparable
+    -- type, `GetErr.panic`) is recovered and returned as the lookup error; it is not ErrNotFound
+    | .error .panic => .error
     | .error .notFound =>
       match o.unknown with
       | some u => .present u
@@ -335,7 +336,6 @@ def evaluateMatch (re : RegexOracle) (o : Opts) (datum : Any) (sel : Selector) (
   match getValue o datum sel.path with
   | .error => .err false
   | .unmodelled => .unmodelled
-  | .panic => .panic
   | .absent => .val (notPresentDisposition op)
   | .present v =>
     match narrowJsonNumber v with
@@ -413,7 +413,6 @@ def evaluate (re : RegexOracle) : Expr → Opts → Any → Out
     match getValue o d sel.path with
     | .error => .err false
     | .unmodelled => .unmodelled
-    | .panic => .panic
     | .absent => .val (op == .all)
     | .present v =>
       match v with
